@@ -81,6 +81,15 @@ CHECKS = {
         'generate_variable_list and recorded samples of real FormulaGrader/ListGrader calls; independent topological-evaluation oracle; every call under a wall-clock alarm.',
    note=PROOF_NOTE + ' compute_sample (the evaluator) is a parameter with the contract Local (reads only its declared dependencies), justified by C10 usage_exact; float evaluation of dependent formulas is exact only on the dyadic polynomial formulas the generators use.',
    technique='Lean 4 proof (invariants of the sweep/resolve loop, least-solution argument for order independence) + exact correspondence + topological oracle', design='§6 C13'),
+ 'C04': dict(
+   text='within_tolerance (infinities first, percentage relative to the first = author\'s argument, norm of the difference <= tolerance on exact squares), the boolean-verdict-to-result step with the answer-credit scaling of raw_check, and consolidate_results '
+        '(failure counter with early return, single-sample rule) modelled over exact Gaussian rationals; proved for all values, tolerances, sample counts and failable_evals: the matched answer\'s result is returned exactly when the number of samples outside the tolerance '
+        'is at most failable_evals (none for a single sample), otherwise grade 0 / ok False; absolute tolerance is |expected-student| <= t with the boundary included, percentage tolerance is relative to |expected|, Frobenius norm for arrays, an infinity matches only itself; '
+        'identical values always earn the answer\'s credit (any tolerance >= 0) and missing at every sample earns nothing when failable_evals < samples (the necessity of that hypothesis is a theorem too). '
+        'Tie: within_tolerance on dyadic grids (real, complex, infinite, vector, matrix; exact boundary cases) and Formula/Numerical/Matrix grader calls with scripted samples whose recorded per-sample evaluations are handed to the model; verdict, credit and message compared exactly; '
+        'the author\'s recorded value is checked against an exact evaluation of the formula on the same scripted sample (same-sample pairing).',
+   note=PROOF_NOTE + ' Partial: evaluating the two formulas in floating point is outside the model (their per-sample values are inputs); a guard band of relative width 1e-9 around the tolerance boundary is excluded where the float computation of the norm/product is not exact (counted in the evidence).',
+   technique='Lean 4 proof (loop invariant of the failure counter, squared-norm characterisation of the tolerance test) + correspondence on recorded samples', design='§6 C04'),
  'C11': dict(
    text='ItemGrader.__call__ / AbstractGrader.__call__ modelled as a state machine over the grader object (stored answers, inferring flag, log flag, debug log) with validation, text check and grading as parameters; proved by induction over ANY call history '
         '(including calls that raise in validation, in the input check or in grading): the next call returns what a freshly constructed grader returns for the current expect value or the last successfully supplied one; '
